@@ -175,6 +175,58 @@ def pc(it, x, syms):
     return Lin.of(NAT[head]) + net
 
 
+def _helper_direct(ctx, mod, fi, R):
+    """Evaluate the helper as a whole.  Returns False (nothing reported) when some letter cannot be evaluated directly."""
+    p_note1, p_note2, p_int = fi.params
+    results = {}
+    for L2 in LETTERS:
+        # (every caller in the package hands over a bare letter as the note to be corrected)
+        note2 = L2
+        net_in = Lin.of(0)
+        note1 = Opaque("note1")
+        interval = Sym("interval", 0, 11)
+        syms = {}
+
+        def mk(ch, syms=syms):
+            it = Interp(ctx.repo, ch)
+
+            def measure(it_, args, kwargs, node):
+                a, b = args
+                return it_.mod_lin(pc(it_, b, syms) - pc(it_, a, syms), 12)
+            it.summaries = {M + ".measure": measure}
+            return it
+        try:
+            paths = explore(mk, lambda it, note2=note2, note1=note1, interval=interval: it.call_function(fi, [note1, note2, Lin.of(interval)], {}))
+        except (CannotDecide, nd.Shape):
+            return False
+        results[L2] = (paths, note1, interval, syms, net_in)
+    for L2, (paths, note1, interval, syms, net_in) in results.items():
+        ok, why = bool(paths), "no outcome"
+        for p in paths:
+            if p.kind != "return":
+                ok, why = False, "%s %r" % (p.kind, p.value)
+                break
+            try:
+                head, net_out, kinds = decompose(p.value, p.interp)
+            except nd.Shape as e:
+                ok, why = False, "result is not a note name: %s" % e
+                break
+            lo, hi = p.interp.lin_interval(net_out)
+            want = pc(p.interp, note1, syms) + Lin.of(interval)
+            if head != L2:
+                ok, why = False, "result letter %r differs from the target letter %s" % (head, L2)
+            elif not nd.congruent_on_path(p.interp, Lin.of(NAT[L2]) + net_out, want, 12):
+                ok, why = False, "the result %r is not the given size above note1: %s + %s is not congruent to pc(note1) + interval" % (p.value, NAT[L2], net_out)
+            elif lo < -6 or hi > 6:
+                ok, why = False, "the result carries %s..%s accidentals (more than six)" % (lo, hi)
+            elif len(kinds) > 1:
+                ok, why = False, "result %r may mix sharps and flats" % (p.value,)
+            if not ok:
+                break
+        ctx.check(ok, R, "helper[%s]" % L2, fi.where(), "%s(note1, %r, size 0..11), evaluated as a whole" % (HELPER, L2), why, paths=len(paths))
+    return True
+
+
 def rule_helper(ctx, mod, R="R-C02-2"):
     fi = mod.func(HELPER)
     ctx.touch(fi)
@@ -182,9 +234,14 @@ def rule_helper(ctx, mod, R="R-C02-2"):
     if len(params) != 3:
         raise AnalysisError("%s no longer takes (note1, note2, interval)" % HELPER)
     body = fi.body
+    # First the direct way: evaluate the whole helper on (unknown note1, letter + any accidentals, any size 0..11) and judge
+    # the result.  It works when the correction is a closed form; a correction *loop* that runs a symbolic number of
+    # times cannot be evaluated like that, and is judged by the loop-invariant argument below instead.
+    if _helper_direct(ctx, mod, fi, R):
+        return
     widx = [i for i, s in enumerate(body) if isinstance(s, ast.While)]
     if not widx:
-        raise AnalysisError("%s: no top-level correction loop found" % HELPER)
+        raise AnalysisError("%s: cannot be evaluated directly, and no top-level correction loop found" % HELPER)
     wi = widx[0]
     loop = body[wi]
     prefix, suffix = body[:wi], body[wi + 1:]
@@ -389,9 +446,12 @@ def rule_measure(ctx, mod):
         if args[0] is b:
             return Lin.of(pb)
         raise CannotDecide("note_to_int applied to something other than an argument")
-    paths = paths_of(ctx.repo, fi, [a, b], summaries={N + ".note_to_int": n2i})
+    try:
+        paths = paths_of(ctx.repo, fi, [a, b], summaries={N + ".note_to_int": n2i})
+    except CannotDecide:
+        paths = None  # measure no longer asks note_to_int for its two arguments: judged on note names below
     ok, why = bool(paths), ""
-    for p in paths:
+    for p in paths or []:
         v = Lin.of(p.value) if p.kind == "return" and not isinstance(p.value, (str, Opaque)) and p.value is not None else None
         if v is None:
             ok, why = False, "%s %r" % (p.kind, p.value)
@@ -403,7 +463,35 @@ def rule_measure(ctx, mod):
         if lo < 0 or hi > 11:
             ok, why = False, "returns %s whose range on the path %s is [%s, %s], outside 0..11" % (v, p.trace, lo, hi)
             break
-    ctx.check(ok, R, "measure", fi.where(), "measure(note1, note2)", why, results=[repr(p.value) for p in paths])
+    if paths is not None:
+        ctx.check(ok, R, "measure", fi.where(), "measure(note1, note2)", why, results=[repr(p.value) for p in paths])
+    # on note names: letter x any run of accidentals on both sides, with the real note_to_int
+    for L1 in LETTERS:
+        bad = None
+        n_paths = 0
+        for L2 in LETTERS:
+            g1, g2 = nd.acc_run("G"), nd.acc_run("H")
+            try:
+                ps = paths_of(ctx.repo, fi, lambda: [AbsStr([L1, g1]), AbsStr([L2, g2])])
+            except (CannotDecide, nd.Shape) as e:
+                raise AnalysisError("measure(%s.., %s..): %s" % (L1, L2, e))
+            n_paths += len(ps)
+            want = Lin.of(NAT[L2]) + nd.run_net(g2) - Lin.of(NAT[L1]) - nd.run_net(g1)
+            for p in ps:
+                v = Lin.of(p.value) if p.kind == "return" and not isinstance(p.value, (str, Opaque, AbsStr)) and p.value is not None else None
+                if v is None:
+                    bad = "measure(%s.., %s..) gives %s %r" % (L1, L2, p.kind, p.value)
+                    break
+                lo, hi = p.interp.lin_interval(v)
+                if not nd.congruent_on_path(p.interp, v, want, 12):
+                    bad = "measure(%s.., %s..) returns %s, not congruent to the pitch difference modulo 12" % (L1, L2, v)
+                    break
+                if lo < 0 or hi > 11:
+                    bad = "measure(%s.., %s..) returns %s, which ranges over [%s, %s] on the path %s: outside 0..11" % (L1, L2, v, lo, hi, p.trace[:3])
+                    break
+            if bad:
+                break
+        ctx.check(bad is None, R, "measure[%s..]" % L1, fi.where(), "measure(%s<accidentals>, <letter><accidentals>)" % L1, bad or "", paths=n_paths)
 
 
 def rule_consonance(ctx, mod):
